@@ -215,6 +215,22 @@ CLAIMS['C18'] = dict(
     technique="Lean 4 proof of the decision logic + per-item rustc compilation against the real macros",
     design_ref="§5 C18")
 
+CLAIMS['C07'] = dict(
+    text=("Kernel-checked theorems: C07_no_panic / C07_no_panic_from_slice (for EVERY type of the universe and every "
+          "byte string the slice decoder returns Ok or Err - no reachable panic site), C07_consumes (a successful "
+          "decode consumes a prefix of at least minWire t bytes), C07_work_bound (a Vec<T> decode whose elements "
+          "occupy >= 1 wire byte produces at most |input|-4 elements: a length prefix cannot buy element decodes), "
+          "C07_bulk_alloc (every buffer the byte-vector loop requests is <= 1 MiB or twice the bytes actually present, "
+          "whatever the claimed length), C07_capacity_hint (the Vec capacity hint is <= 4096 bytes or one element). "
+          "Differential run under a counting global allocator: valid encodings with adversarial length prefixes "
+          "(0xFFFFFFFF, 0x80000000, 0x7FFFFFFF, 1 MiB, 1 MiB+1) over every 4-byte window, random strings; oracle: no "
+          "panic, largest single allocation and peak live bytes bounded by 1 MiB + 64 KiB + 4*size_of + 160*|input|; "
+          "the input is written to disk before decoding so that an abort is reported with its culprit. Partial: the "
+          "composed memory bound over arbitrary nestings is measured, not proved; stack depth is bounded by the type "
+          "(the universe is recursion-free), recursive user types are outside the statement."),
+    technique="Lean 4 proof (totality and consumption by induction over the universe; allocation rules of the two sizing sites) + differential check under a counting allocator",
+    design_ref="§5 C07")
+
 NOT_YET = {
 }
 
